@@ -807,3 +807,22 @@ def run(idx, rep, tier):
     r8(k)
     r9(k)
     r10(k)
+    rep.rule('C07.R11', 'X11 forwarding: the handler that rewrites the '
+             'connection setup block (SSHX11ClientForwarder._recv_auth_data) '
+             'keeps whatever already follows it in the input buffer - the '
+             'value stored to _inpbuf on acceptance contains the previous '
+             '_inpbuf; only the rejection branch may clear it')
+    _fi = k.func('x11.SSHX11ClientForwarder._recv_auth_data')
+    _sts = [(n, v) for n, v in k.stores_to(_fi, 'self._inpbuf')]
+    rep.floor('C07.R11', 'input buffer stores', len(_sts), 2)
+    for _n, _v in _sts:
+        _empty = isinstance(_v, ast.Constant) and _v.value == b''
+        _keeps = _v is not None and any(
+            dotted(x) == 'self._inpbuf' for x in ast.walk(_v))
+        rep.check(_empty or _keeps, 'C07.R11',
+                  key(_fi, f'bytes after the setup block kept L{_n.lineno}'),
+                  'the stored value includes the unconsumed rest',
+                  'the rewritten setup block replaces the input buffer: the '
+                  'first X11 request, when it arrives in the same chunk as '
+                  'the setup block, is lost (17 of 65 bytes dropped)',
+                  k.loc(_fi, _n))
